@@ -7,6 +7,8 @@ Structural premises P1..P8 checked on the AST; under them (integer fields) the l
 import ast
 
 from ..core import AnalysisError, norm, loc, walk_no_nested, attr_chain, call_name
+from ..normalize import inline, local_env, expand, canon, ctext
+from .. import fieldwise as fw
 
 CAPS = 'fim.slivers.capacities_labels:Capacities'
 FREE = 'fim.slivers.capacities_labels:FreeCapacity'
@@ -123,56 +125,75 @@ def run(prog, rep):
 
     # P1
     for name, op in (('__add__', ast.Add), ('__sub__', ast.Sub)):
-        fn = caps.methods.get(name)
-        if fn is None:
+        fn0 = caps.methods.get(name)
+        if fn0 is None:
             raise AnalysisError(f'Capacities.{name} vanished')
         fq = f'Capacities.{name}'
-        loop = loop_over_self_dict(fn)
-        fresh = [n for n in walk_no_nested(fn) if isinstance(n, ast.Assign) and isinstance(n.value, ast.Call)
-                 and isinstance(n.value.func, ast.Name) and n.value.func.id == 'Capacities' and not n.value.args
-                 and not n.value.keywords]
-        rets = [n for n in walk_no_nested(fn) if isinstance(n, ast.Return)]
-        rep.instance('P1', f'{fq}: loop={norm(loop.iter) if loop else None}')
-        if loop is None:
-            rep.violation('P1', loc(mod, fn), fq, 'does not iterate self.__dict__',
-                          f'{fq} no longer ranges over all fields of self')
+        sym = '+' if op is ast.Add else '-'
+        try:
+            mf = fw.map_form(prog, caps, fn0)
+        except fw.NotFieldwise as e:
+            rep.instance('P1', f'{fq}: not a point-wise lift ({e})')
+            rep.violation('P1', loc(mod, fn0), fq, 'does not iterate self.__dict__', f'{fq} no longer ranges over all fields of self')
             continue
-        if not fresh:
-            rep.violation('P1', loc(mod, fn), fq, 'result is not a fresh Capacities()',
-                          f'{fq} does not build its result in a fresh Capacities()')
+        fn, env = mf['fn'], mf['env']
+        rets = mf['returns']
+        result_names = {st['result'] for st in mf['stores']}
+        res = None
+        for r_ in rets:
+            if isinstance(r_.value, ast.Name) and r_.value.id in result_names:
+                res = r_.value.id
+        rep.instance('P1', f'{fq}: stores {[norm(st["stmt"], 70) for st in mf["stores"]]} into {sorted(result_names)}; returns {[norm(r_.value, 30) for r_ in rets]}')
+        if res is None or len(rets) != 1:
+            rep.violation('P1', loc(mod, fn0), fq, 'does not return the fresh result', f'{fq} does not return the freshly built result object')
             continue
-        res = fresh[0].targets[0].id
-        fvar = loop.target.elts[0].id if isinstance(loop.target, ast.Tuple) else loop.target.id
-        vvar = loop.target.elts[1].id if isinstance(loop.target, ast.Tuple) and len(loop.target.elts) > 1 else None
-        stores = [n for n in ast.walk(loop) if isinstance(n, ast.Assign) and isinstance(n.targets[0], ast.Subscript)]
+        mk = mf['made'].get(res)
+        if mk is None or mk.func.id != 'Capacities':
+            rep.violation('P1', loc(mod, fn0), fq, 'result is not a fresh Capacities()', f'{fq} does not build its result in a fresh Capacities()')
+            continue
+        if mk.args or mk.keywords:
+            rep.violation('P7', loc(mod, mk), fq, norm(mk),
+                          f'{fq} builds its result through the validating constructor, which asserts v >= 0 on the values it is given: an '
+                          f'operand (or a difference) with a negative field raises instead of being representable, and the result depends on '
+                          f'which operand comes first')
         good = False
-        for s in stores:
-            t = s.targets[0]
-            if ast.unparse(t.value) == f'{res}.__dict__' and ast.unparse(t.slice) == fvar and isinstance(s.value, ast.BinOp):
-                l, r = ast.unparse(s.value.left), ast.unparse(s.value.right)
-                left_ok = l in (f'self.__dict__[{fvar}]', vvar)
-                right_ok = r in (f'other.__dict__[{fvar}]', f'other.__dict__.get({fvar}, 0)')
-                if isinstance(s.value.op, op) and left_ok and right_ok:
-                    good = True
-                else:
-                    rep.violation('P1', loc(mod, s), fq, norm(s),
-                                  f'{fq} must compute self[f] {"+" if op is ast.Add else "-"} other[f] for every field f; found {norm(s.value)}')
-                    good = True
-        if not good:
-            rep.violation('P1', loc(mod, loop), fq, 'no point-wise store into the result',
-                          f'{fq} does not store self[f] op other[f] into the result for each field')
-        # loop must not skip fields
-        for n in ast.walk(loop):
-            if isinstance(n, (ast.Continue, ast.Break)) or (isinstance(n, ast.If) and n is not loop):
-                rep.violation('P1', loc(mod, n), fq, f'conditional in the field loop: {norm(n, 60)}',
+        for st in mf['stores']:
+            if st['result'] != res:
+                continue
+            g = st['gen']
+            if g is None or g.owner != 'self':
+                rep.violation('P1', loc(mod, st['stmt']), fq, f'result filled from a loop over {norm(st["gens"][-1][1], 40) if st["gens"] else "nothing"}',
+                              f'{fq} no longer ranges over all fields of self')
+                good = True
+                continue
+            if not (isinstance(st['key'], ast.Name) and st['key'].id == g.fvar):
+                rep.violation('P1', loc(mod, st['stmt']), fq, norm(st['stmt'], 80), f'{fq} stores the result of field f under another key')
+                good = True
+                continue
+            val = st['value']
+            if st['aug'] is not None:
+                val = ast.BinOp(left=ast.Subscript(value=ast.Attribute(value=ast.Name(id=res, ctx=ast.Load()), attr='__dict__', ctx=ast.Load()),
+                                                   slice=ast.Name(id=g.fvar, ctx=ast.Load()), ctx=ast.Load()), op=st['aug'], right=val)
+            txt = fw.norm_expr(val, g, env)
+            want = ['SELF_f + OTHER_f', 'OTHER_f + SELF_f'] if op is ast.Add else ['SELF_f - OTHER_f']
+            want += [w.replace('OTHER_f', 'dflt(OTHER_f, 0)') for w in want]
+            if txt not in want:
+                rep.violation('P1', loc(mod, st['stmt']), fq, norm(st['stmt']),
+                              f'{fq} must compute self[f] {sym} other[f] for every field f; found {txt}')
+            good = True
+            if st['conds']:
+                rep.violation('P1', loc(mod, st['stmt']), fq, f'conditional in the field loop: {[norm(c, 40) for c in st["conds"]]}',
                               f'{fq} treats some fields differently from others (conditional inside the field loop)')
-        if not rets or ast.unparse(rets[-1].value) != res:
-            rep.violation('P1', loc(mod, fn), fq, 'does not return the fresh result',
-                          f'{fq} does not return the freshly built result object')
-        # P7: the result must not be built through the validating constructor / setter
+            for l in [x for x in ast.walk(fn) if isinstance(x, ast.For) and any(y is st['stmt'] for y in ast.walk(x))]:
+                for n in ast.walk(l):
+                    if isinstance(n, (ast.Continue, ast.Break)):
+                        rep.violation('P1', loc(mod, n), fq, f'conditional in the field loop: {norm(n, 60)}',
+                                      f'{fq} treats some fields differently from others (conditional inside the field loop)')
+        if not good:
+            rep.violation('P1', loc(mod, fn0), fq, 'no point-wise store into the result', f'{fq} does not store self[f] op other[f] into the result for each field')
+        # P7: the result must not be built through the validating setter
         for n in walk_no_nested(fn):
-            if isinstance(n, ast.Call) and (call_name(n) == '_set_fields' or
-                                            (isinstance(n.func, ast.Name) and n.func.id == 'Capacities' and n.keywords)):
+            if isinstance(n, ast.Call) and call_name(n) == '_set_fields':
                 rep.violation('P7', loc(mod, n), fq, norm(n),
                               f'{fq} builds its result through the validating setter, which asserts v >= 0: a '
                               f'difference with a negative field raises instead of being representable')
@@ -193,70 +214,61 @@ def run(prog, rep):
         check_purity(rep, jf.module, jf, jf.methods[name], {'self'})
 
     # P3 comparators
-    want = {'__gt__': ast.Lt, '__lt__': ast.Gt}
-    for name, cmpop in want.items():
-        fn = caps.methods[name]
+    want = {'__gt__': 'SELF_f < OTHER_f', '__lt__': 'OTHER_f < SELF_f'}
+    for name, wtxt in want.items():
+        fn0 = caps.methods[name]
         fq = f'Capacities.{name}'
-        loop = loop_over_self_dict(fn)
         ok = False
-        if loop is not None and isinstance(loop.target, ast.Tuple):
-            fvar, vvar = loop.target.elts[0].id, loop.target.elts[1].id
-            ifs = [n for n in loop.body if isinstance(n, ast.If)]
-            if len(ifs) == 1 and isinstance(ifs[0].test, ast.Compare) and len(ifs[0].test.ops) == 1:
-                t = ifs[0].test
-                l, r = ast.unparse(t.left), ast.unparse(t.comparators[0])
-                o = type(t.ops[0])
-                # normalise so that self's value is on the left
-                flip = {ast.Lt: ast.Gt, ast.Gt: ast.Lt, ast.LtE: ast.GtE, ast.GtE: ast.LtE}
-                if r in (vvar, f'self.__dict__[{fvar}]') and l == f'other.__dict__[{fvar}]':
-                    l, r, o = r, l, flip.get(o, o)
-                ret_false = any(isinstance(x, ast.Return) and isinstance(x.value, ast.Constant) and x.value.value is False
-                                for x in ifs[0].body)
-                ok = l in (vvar, f'self.__dict__[{fvar}]') and r == f'other.__dict__[{fvar}]' and o is cmpop and ret_false
-        last = fn.body[-1]
-        ret_true = isinstance(last, ast.Return) and isinstance(last.value, ast.Constant) and last.value.value is True
-        rep.instance('P3', f'{fq}: {norm(loop.body[0].test) if loop is not None and loop.body and isinstance(loop.body[0], ast.If) else "?"}')
-        if not (ok and ret_true):
-            rep.violation('P3', loc(mod, fn), fq, 'comparator shape',
-                          f'{fq} must return False iff some field of self is {"<" if cmpop is ast.Lt else ">"} the same '
+        got = None
+        try:
+            g, viol, node, env = fw.forall_form(prog, caps, fn0)
+            got = fw.norm_expr(viol, g, env)
+            ok = g.owner == 'self' and got == wtxt
+        except fw.NotFieldwise as e:
+            got = f'not field-wise: {e}'
+        rep.instance('P3', f'{fq}: False iff some field has {got}')
+        if not ok:
+            rep.violation('P3', loc(mod, fn0), fq, 'comparator shape',
+                          f'{fq} must return False iff some field of self is {"<" if name == "__gt__" else ">"} the same '
                           f'field of other (and True otherwise); the two comparisons must mirror each other')
 
     # P4
     nf = caps.methods['negative_fields']
-    txt = ast.unparse(nf)
-    rep.instance('P4', 'Capacities.negative_fields: v < 0 -> append(f)')
-    loop = loop_over_self_dict(nf)
     good = False
-    if loop is not None and isinstance(loop.target, ast.Tuple):
-        fvar, vvar = loop.target.elts[0].id, loop.target.elts[1].id
-        for n in loop.body:
-            if isinstance(n, ast.If) and ast.unparse(n.test) in (f'{vvar} < 0', f'0 > {vvar}') and \
-                    any(isinstance(c, ast.Call) and call_name(c) == 'append' and ast.unparse(c.args[0]) == fvar
-                        for c in ast.walk(n)):
-                good = True
+    try:
+        g, elt, conds, node, env = fw.collect_form(prog, caps, nf)
+        rep.instance('P4', f'Capacities.negative_fields: collects {elt} of {g.owner} where {conds}')
+        good = g.owner == 'self' and elt == g.fvar and conds == ['SELF_f < 0']
+    except fw.NotFieldwise as e:
+        rep.instance('P4', f'Capacities.negative_fields: {e}')
     if not good:
         rep.violation('P4', loc(mod, nf), 'Capacities.negative_fields', 'threshold / collected name',
-                      'negative_fields must collect exactly the names of the fields whose value is < 0')
+                      'negative_fields must collect exactly the names of the fields whose value is < 0 (over all fields of the value itself)')
     pf = caps.methods['positive_fields']
-    rep.instance('P4', 'Capacities.positive_fields: <= 0 -> False')
-    if '<= 0' not in ast.unparse(pf):
+    good = False
+    try:
+        g, viol, node, env = fw.forall_form(prog, caps, pf)
+        g2 = fw.FieldGen('self', g.fvar, None, g.node)
+        got = fw.norm_expr(viol, g2, env)
+        rep.instance('P4', f'Capacities.positive_fields: False iff some requested field has {got}')
+        good = got == 'SELF_f <= 0'
+    except fw.NotFieldwise as e:
+        rep.instance('P4', f'Capacities.positive_fields: {e}')
+    if not good:
         rep.violation('P4', loc(mod, pf), 'Capacities.positive_fields', 'threshold',
                       'positive_fields must return False when a requested field is <= 0')
 
     # P5 equality
     eq = caps.methods['__eq__']
-    loop = loop_over_self_dict(eq)
-    rep.instance('P5', f'Capacities.__eq__: {norm(loop.body[-1].test) if loop is not None and isinstance(loop.body[-1], ast.If) else "?"}')
     good = False
-    if loop is not None and isinstance(loop.target, ast.Tuple):
-        fvar, vvar = loop.target.elts[0].id, loop.target.elts[1].id
-        for n in loop.body:
-            if isinstance(n, ast.If) and isinstance(n.test, ast.Compare) and isinstance(n.test.ops[0], ast.NotEq):
-                l, r = ast.unparse(n.test.left), ast.unparse(n.test.comparators[0])
-                if {l, r} & {vvar, f'self.__dict__[{fvar}]'} and {l, r} & {f'other.__dict__.get({fvar}, 0)', f'other.__dict__[{fvar}]'}:
-                    good = True
-    last = eq.body[-1]
-    if not good or not (isinstance(last, ast.Return) and isinstance(last.value, ast.Constant) and last.value.value is True):
+    try:
+        g, viol, node, env = fw.forall_form(prog, caps, eq)
+        got = fw.norm_expr(viol, g, env)
+        rep.instance('P5', f'Capacities.__eq__: False iff some field has {got}')
+        good = g.owner == 'self' and got in ('SELF_f != dflt(OTHER_f, 0)', 'dflt(OTHER_f, 0) != SELF_f', 'OTHER_f != SELF_f', 'SELF_f != OTHER_f')
+    except fw.NotFieldwise as e:
+        rep.instance('P5', f'Capacities.__eq__: {e}')
+    if not good:
         rep.violation('P5', loc(mod, eq), 'Capacities.__eq__', 'not field-wise',
                       '__eq__ must return False iff some field differs and True otherwise')
     # truthiness shortcut: `if not other` is only sound while no Capacities value is falsy
